@@ -471,6 +471,14 @@ func (c *SpecCtx) ident(name string) SV {
 	if v, ok := c.entry[name]; ok {
 		return v
 	}
+	if c.inOld && c.fr != nil {
+		// captured variable of a closure analysed on its own: its value at entry
+		if cell, ok := c.fr.Cells[name]; ok {
+			if v, ok := c.st.Entry["fv:"+name]; ok {
+				return SV{V: v, T: cell.Typ}
+			}
+		}
+	}
 	if c.fr != nil && !c.inOld {
 		if cell, ok := c.fr.Cells[name]; ok {
 			return SV{V: c.st.Cells[cell], T: cell.Typ}
@@ -779,6 +787,102 @@ func (c *SpecCtx) call(n *ast.CallExpr) SV {
 	case "closed":
 		ch := c.coerceTo(c.eval(n.Args[0]), SChan)
 		return SV{V: e.regionRead(c.st, "chan.closed", []Sort{SChan}, SBool, ch)}
+	case "inv":
+		// inv(x.mutex): conjunction of the monitor invariants declared for that lock
+		v := c.eval(n.Args[0])
+		key, ok := v.V.(T)
+		if !ok {
+			return c.bad("inv: not a lock expression")
+		}
+		r := &Run{e: e}
+		lr := r.lockOf(c.st, key)
+		if lr.Class == "" {
+			return c.bad("inv: unknown lock")
+		}
+		tb := e.cs.Types[lr.Owner]
+		if tb == nil {
+			return SV{V: True}
+		}
+		t := r.typeOfOwner(lr.Owner)
+		var cs []T
+		for _, cl := range tb.All("inv") {
+			if len(cl.Words) < 1 || cl.Words[0] != lr.Field {
+				continue
+			}
+			x, err := parseSpec(cl.Expr)
+			if err != nil {
+				return c.bad("%v", err)
+			}
+			sub := c.sub()
+			sub.vars[tb.Self] = SV{V: lr.Base, T: types.NewPointer(t)}
+			cs = append(cs, sub.boolTerm(x))
+		}
+		return SV{V: And(cs...)}
+	case "lastsent", "lastrecv":
+		// lastsent(ch)/lastrecv(ch): the value most recently sent to / received from ch on this path
+		ch := c.coerceTo(c.eval(n.Args[0]), SChan)
+		chv := c.eval(n.Args[0])
+		var et types.Type
+		if chv.T != nil {
+			if ct, ok := coreType(chv.T).(*types.Chan); ok {
+				et = ct.Elem()
+			}
+		}
+		if v, ok := c.st.Ghost[fn.Name+":"+ch.S]; ok {
+			return SV{V: v, T: et}
+		}
+		if et != nil {
+			return SV{V: e.freshVal(c.st, et, "no"+fn.Name), T: et}
+		}
+		return SV{V: e.freshConst("no"+fn.Name, SAny)}
+	case "wgn":
+		// wgn(wg): ghost counter of a *sync.WaitGroup
+		v := c.coerceTo(c.eval(n.Args[0]), SRef)
+		return SV{V: e.regionRead(c.st, "wg.n", []Sort{SRef}, SInt, v), T: types.Typ[types.Int]}
+	case "boundrecv":
+		// boundrecv(f): receiver of a bound method value created in this function
+		v := c.eval(n.Args[0])
+		var bm *BoundMethod
+		switch x := v.V.(type) {
+		case *BoundMethod:
+			bm = x
+		case T:
+			bm = e.methods[x.S]
+		}
+		if bm == nil {
+			return c.bad("boundrecv: not a bound method value")
+		}
+		return SV{V: bm.Recv}
+	case "boundname":
+		v := c.eval(n.Args[0])
+		var bm *BoundMethod
+		switch x := v.V.(type) {
+		case *BoundMethod:
+			bm = x
+		case T:
+			bm = e.methods[x.S]
+		}
+		if bm == nil {
+			return SV{V: e.strConst("<not a bound method>")}
+		}
+		return SV{V: e.strConst(bm.Name)}
+	case "chancap":
+		ch := c.coerceTo(c.eval(n.Args[0]), SChan)
+		return SV{V: e.regionRead(c.st, "chan.cap", []Sort{SChan}, SInt, ch), T: types.Typ[types.Int]}
+	case "nolocks":
+		if len(c.st.Locks) == 0 {
+			return SV{V: True}
+		}
+		return SV{V: False}
+	case "panicking":
+		if c.st.Panicking {
+			return SV{V: True}
+		}
+		return SV{V: False}
+	case "spawned":
+		// spawned("name"): number of `go` statements executed so far on this path for that body
+		v := c.coerceTo(c.eval(n.Args[0]), SStr)
+		return SV{V: e.regionRead(c.st, "cnt:go", []Sort{SStr}, SInt, v), T: types.Typ[types.Int]}
 	case "oncedone":
 		// oncedone(x.once): has this sync.Once fired
 		v := c.coerceTo(c.eval(n.Args[0]), SRef)
@@ -858,6 +962,9 @@ func (c *SpecCtx) call(n *ast.CallExpr) SV {
 				}
 				return SV{V: App(BV(w), fmt.Sprintf("(_ %s %d)", ext, w-fw), t), T: ty}
 			}
+		}
+		if t.So == SInt {
+			return SV{V: App(BV(w), fmt.Sprintf("(_ int2bv %d)", w), t), T: ty}
 		}
 		return c.bad("%s of non-bv", fn.Name)
 	case "hi32":
